@@ -1,4 +1,15 @@
+use vharness::engine::{self, Ctx, Sub};
 use vharness::*;
+
+fn subs_of(id: &str) -> Option<&'static [Sub]> {
+    Some(match id {
+        "C02" => checks::c02::SUBS,
+        "C03" => checks::c03::SUBS,
+        "C04" => checks::c04::SUBS,
+        "C11" => checks::c11::SUBS,
+        _ => return None,
+    })
+}
 
 fn main() {
     engine::install_panic_hook();
@@ -13,6 +24,60 @@ fn main() {
         println!("{}", serde_json::to_string_pretty(&v).unwrap());
         return;
     }
-    eprintln!("unknown command {}", cmd);
-    std::process::exit(2);
+    let mut tier = std::env::var("VERIF_TIER").unwrap_or_else(|_| "quick".to_string());
+    let mut replay: Option<String> = None;
+    let mut i = 2;
+    while i < args.len() {
+        match args[i].as_str() {
+            "--tier" => {
+                tier = args.get(i + 1).cloned().unwrap_or(tier);
+                i += 1;
+            }
+            "--replay" => {
+                replay = args.get(i + 1).cloned();
+                i += 1;
+            }
+            _ => {}
+        }
+        i += 1;
+    }
+    let Some(subs) = subs_of(cmd) else {
+        eprintln!("unknown property {}", cmd);
+        std::process::exit(2);
+    };
+    let ctx = Ctx::new(cmd, &tier);
+    // watchdog: a budget hit is inconclusive (exit 2), never a violation
+    let limit = std::env::var("VERIF_WATCHDOG_S")
+        .ok()
+        .and_then(|s| s.parse::<u64>().ok())
+        .unwrap_or(if tier == "thorough" { 6 * 3600 } else { 1800 });
+    std::thread::spawn(move || {
+        std::thread::sleep(std::time::Duration::from_secs(limit));
+        eprintln!("watchdog: time budget of {} s exhausted (inconclusive)", limit);
+        std::process::exit(2);
+    });
+    if let Some(path) = replay {
+        std::process::exit(engine::replay_file(&ctx, subs, &path));
+    }
+    println!("== {} ({}) seed={} threads={}", cmd, tier, ctx.seed, ctx.threads);
+    let code = match cmd {
+        "C02" => {
+            checks::c02::run(&ctx);
+            checks::c02::finish(&ctx)
+        }
+        "C03" => {
+            checks::c03::run(&ctx);
+            checks::c03::finish(&ctx)
+        }
+        "C11" => {
+            checks::c11::run(&ctx);
+            checks::c11::finish(&ctx)
+        }
+        "C04" => {
+            checks::c04::run(&ctx);
+            checks::c04::finish(&ctx)
+        }
+        _ => 2,
+    };
+    std::process::exit(code);
 }
